@@ -145,6 +145,76 @@ class FastPath(Harness):
         return ok
 
 
+class SubImageLabel(Harness):
+    """a padded sub-image (partial upstream answer placed into a full-size transparent canvas) is
+    labelled transparent, so that the single-layer shortcut cannot return it without the background"""
+    modules = ['mapproxy.image', 'mapproxy.image.merge']
+    functions = ['SubImageSource', 'LayerMerger.merge']
+
+    @classmethod
+    def build(cls, L, cfg):
+        im = L.mods['mapproxy.image']
+        m = L.mods['mapproxy.image.merge']
+        return dict(im=im, m=m)
+
+    @classmethod
+    def inputs(cls, ctx, cfg):
+        v = dict(W=int_var('W'), H=int_var('H'), ox=int_var('ox'), oy=int_var('oy'), out_transparent=bool_var('out_transparent'))
+        assume(AND(v['W'] >= 2, v['H'] >= 2, v['W'] <= 4096, v['H'] <= 4096, v['ox'] >= 0, v['oy'] >= 0, v['ox'] < v['W'], v['oy'] < v['H']))
+        return v
+
+    @classmethod
+    def prop(cls, ctx, cfg, W, H, ox, oy, out_transparent):
+        im, m = ctx['im'], ctx['m']
+        created = []
+
+        class Canvas(object):
+            def __init__(self, size, opts):
+                self.size, self.opts, self.pastes = size, opts, []
+
+            def paste(self, img, pos):
+                self.pastes.append(pos)
+
+        def create_image(size, opts):
+            c = Canvas(size, opts)
+            created.append(c)
+            return c
+
+        class Opts(object):
+            def __init__(self, transparent):
+                self.transparent = transparent
+                self.opacity = None
+                self.bgcolor = None
+
+            def copy(self):
+                return Opts(self.transparent)
+
+        class Src(object):
+            def __init__(self, img=None, size=None, image_opts=None, cacheable=True):
+                self.img, self.size, self.image_opts, self.cacheable = img, size, image_opts, cacheable
+
+            def as_image(self):
+                return 'SUBIMG'
+        im.__dict__['create_image'] = create_image
+        im.__dict__['ImageSource'] = Src
+        out = im.SubImageSource(Src(), (W, H), (ox, oy), Opts(False))
+        ok = AND(len(created) == 1, out.image_opts.transparent is True, created[0].opts.transparent is True,
+                 out.size[0] == W, out.size[1] == H, created[0].pastes == [(ox, oy)])
+        # composed with the merger: never answered through the shortcut unless the output is transparent
+
+        def create_image2(size, opts):
+            raise _SlowPath()
+        m.__dict__['create_image'] = create_image2
+        merger = m.LayerMerger()
+        merger.add(out, None)
+        oo = Opts(B(out_transparent))
+        try:
+            res = merger.merge(oo, size=(W, H), bbox=None, bbox_srs=None, coverage=None)
+        except _SlowPath:
+            return ok
+        return AND(ok, IMPLIES(res is out, out_transparent))
+
+
 class Combine(Harness):
     """combined_layers only merges ADJACENT layers and keeps the bottom-to-top order of the members"""
     modules = ['mapproxy.service.wms']
@@ -259,6 +329,9 @@ CANARIES = [
         "                and (not layer_opts or layer_opts.opacity is None or layer_opts.opacity >= 1.0)\n", "")]}, {}),
     ('single-layer shortcut ignores the global clip coverage', 'FastPath', {'mapproxy.image.merge': [(
         "                    and not coverage):", "                    ):")]}, {}),
+    ('padded sub-image keeps the opaque label of its source', 'SubImageLabel', {'mapproxy.image': [(
+        "    return ImageSource(img, size=size, image_opts=new_image_opts, cacheable=cacheable)",
+        "    return ImageSource(img, size=size, image_opts=image_opts, cacheable=cacheable)")]}, {}),
     ('combination skips over a non-combinable layer', 'Combine', {'mapproxy.service.wms': [(
         "        else:\n            combined_layers.append(current_layer)\n    return combined_layers",
         "        else:\n            combined_layers.insert(0, current_layer)\n    return combined_layers")]}, dict(n=3)),
@@ -278,14 +351,15 @@ def obligations(tier, seed):
     for i, c in enumerate(ocfgs):
         specs.append(spec(MOD, 'OpaqueSound', 'opaque-pruning-sound/cfg%d%s%s' % (i, '-cov' if c['coverage'] else '', '-opacity' if c['with_opacity'] else ''), cfg=c, cost=5))
     specs.append(spec(MOD, 'FastPath', 'single-layer-fast-path', cfg={}, cost=5))
+    specs.append(spec(MOD, 'SubImageLabel', 'padded-sub-image-is-labelled-transparent', cfg={}, cost=5))
     for n in ((2, 3, 4, 5) if tier == 'thorough' else (2, 3, 4)):
         specs.append(spec(MOD, 'Combine', 'combined-layers/n%d' % n, cfg=dict(n=n)))
     for d in ('none', 'srs', 'formats', 'coverage', 'opacity', 'transparent_color', 'fwd', 'res_range'):
         specs.append(spec(MOD, 'Compatible', 'combine-compatible/%s' % d, cfg=dict(differs=d)))
-    twins = dict(OpaqueSound=ocfgs[0], FastPath={}, Combine=dict(n=3), Compatible=dict(differs='coverage'))
+    twins = dict(OpaqueSound=ocfgs[0], FastPath={}, Combine=dict(n=3), Compatible=dict(differs='coverage'), SubImageLabel={})
     for h, c in twins.items():
         specs.append(spec(MOD, h, 'twin/' + h, kind='witness', cfg=c))
-    for label, h, patches, c in (CANARIES if tier == 'thorough' else CANARIES[:1] + CANARIES[2:5]):
+    for label, h, patches, c in (CANARIES if tier == 'thorough' else CANARIES[:1] + CANARIES[2:6]):
         c = dict(c)
         if 'size' in c:
             c['size'] = list(c['size'])
@@ -303,7 +377,7 @@ META = dict(
                 'same size, (layer opaque or output transparent) and no partial opacity; (3) combined_layers merges only adjacent layers and '
                 'preserves bottom-to-top order for every combinable relation; (4) sources that differ in SRS list, formats, coverage, opacity, '
                 'transparent colour or forwarded dimension values are never combined.',
-    functions=sorted(set(OpaqueSound.functions + FastPath.functions + Combine.functions + Compatible.functions)),
+    functions=sorted(set(OpaqueSound.functions + FastPath.functions + Combine.functions + Compatible.functions + SubImageLabel.functions)),
     bounds='query rectangles of fixed pixel size anywhere within +-1e7; coverage any rectangle; opacity in (0, 1]; stacks of up to 4 (thorough 5) layers',
     outside='PIL pixel arithmetic (alpha_composite/paste/blend/putalpha: C code), paletted/colour-key handling, polygon coverages, opacity 0 '
             '(a configuration that makes the layer invisible yet "opaque" for pruning)',
